@@ -93,6 +93,16 @@ case("C04", "left-join-limit-hang", "a LEFT (or RIGHT) hash join below LIMIT han
      {"outcome": "rows", "rows": [[1]]}, {"outcome": "deadlock", "deadlock_kind": "stuck_barrier", "parked_ops": ["HashJoin/exec"]},
      ["C01", "C03", "C06", "C08", "C15"], exec={"kind": "det", "policy": "fifo", "partitions": 2})
 
+T2 = ["CREATE TEMP TABLE t2 (k INT, j INT)", "INSERT INTO t2 VALUES (1,2),(2,3),(3,1)"]
+case("C02", "optimizer-cte-self-join", "with the optimizer on, two scans of one CTE in the same FROM clause are confused with each other: the cross product c a, c b returns a's columns for b (wrong rows); with a join condition the join-reorder assertion fires / 'Filter previously used' is raised. Correct with enable_optimizer=false",
+     T2, "WITH c AS MATERIALIZED (SELECT k, j FROM t2) SELECT * FROM c a, c b",
+     {"outcome": "rows", "rows": [[1, 2, 1, 2], [1, 2, 2, 3], [1, 2, 3, 1], [2, 3, 1, 2], [2, 3, 2, 3], [2, 3, 3, 1], [3, 1, 1, 2], [3, 1, 2, 3], [3, 1, 3, 1]]},
+     {"outcome": "rows", "rows": [[1, 2, 1, 2], [1, 2, 1, 2], [1, 2, 1, 2], [2, 3, 2, 3], [2, 3, 2, 3], [2, 3, 2, 3], [3, 1, 3, 1], [3, 1, 3, 1], [3, 1, 3, 1]]}, ["C01", "C09"])
+case("C02", "optimizer-cte-self-join-left", "same defect through a LEFT JOIN between two scans of one CTE: every row pairs with itself whatever the ON condition says",
+     T2, "WITH c AS MATERIALIZED (SELECT k, j FROM t2) SELECT * FROM c a LEFT JOIN c b ON (a.k = b.j AND a.j = b.k)",
+     {"outcome": "rows", "rows": [[1, 2, None, None], [2, 3, None, None], [3, 1, None, None]]},
+     {"outcome": "rows", "rows": [[1, 2, 1, 2], [2, 3, 2, 3], [3, 1, 3, 1]]}, ["C01", "C09"])
+
 with open(os.path.join(V, "known_findings.jsonl"), "w") as f:
     for e in F:
         f.write(json.dumps(e) + "\n")
